@@ -254,8 +254,10 @@ class Node(object):
             a = a[:-1]
         if which in ("nscat", "nsld"):
             s, density, wl = a
-            f = s if opts.get("str") and tbl == "public" else self._formula(tbl, s)
+            f = s if opts.get("str") else self._formula(tbl, s)
             kw = {"natural_density" if opts.get("natural") else "density": density}
+            if opts.get("str") and tbl != "public":
+                kw["table"] = t
             if opts.get("vector"):
                 import numpy as np
                 wl = np.array([wl, 2 * wl, 0.25 * wl])
